@@ -12,13 +12,30 @@
 # See the License for the specific language governing permissions and
 # limitations under the License.
 import ast
-from typing import List, Tuple
+from typing import List, Tuple, get_args
 
 from sympy import Symbol
 from sympy.logic.boolalg import Boolean
 
 from ..types import TType, TypeErrorException
 from . import Binding, Env, decompose_to_symbols, exceptions, translate_expression
+
+
+def _flatten_exp(vexp):
+    """Flatten a (nested) list of bit expressions"""
+    if isinstance(vexp, list):
+        return [x for e in vexp for x in _flatten_exp(e)]
+    return [vexp]
+
+
+def _nest_as_type(bits, ttype):
+    """Give a flat list of bit expressions the nesting translate_argument uses
+    for naming the bits of ttype"""
+    if ttype == bool:
+        return bits.pop(0)
+    if hasattr(ttype, "BIT_SIZE"):
+        return [bits.pop(0) for _ in range(ttype.BIT_SIZE)]
+    return [_nest_as_type(bits, t) for t in get_args(ttype)]
 
 
 def translate_statement(  # noqa: C901
@@ -79,6 +96,11 @@ def translate_statement(  # noqa: C901
             texp, vexp = ret_type.crop((texp, vexp))  # type: ignore
         elif texp != ret_type:
             raise TypeErrorException(texp, ret_type)
+
+        if len(get_args(texp)) > 0:
+            # a tuple typed name evaluates to a flat list of bits: name the result
+            # bits as translate_argument names returns.bitvec (_ret.0.0, ...)
+            vexp = _nest_as_type(_flatten_exp(vexp), texp)
 
         res = decompose_to_symbols(vexp, "_ret")
         env.bind(Binding("_ret", texp, [x[0] for x in res]))
